@@ -183,8 +183,12 @@ func init() {
 			}
 			return 1 + r.intn(40)
 		})
-		if c18Par(shape) { // window sizes with chunk statistics, split chunks, the recursive split of the msm
+		if c18Par(shape) { // the recursive split of the msm; even sub-shapes: more than 4096 points, i.e. window sizes
+			// c >= 10 (chunk statistics computed by parallel.Execute, batch-affine buckets, overweight chunks split in two)
 			n = 700 + 150*(shape&3) + r.intn(100)
+			if shape&1 == 0 {
+				n = 4200 + r.intn(300)
+			}
 		}
 		points, scalars := rG1(r, n), rfrs(r, n)
 		n2 := n
